@@ -70,12 +70,22 @@ def scenario(sess, name=NAME, distinct=False):
     L += ["step"] * sess["pre"]
     for i, mode in enumerate(sess["saves"]):
         L.append("step")
-        L.append("save %s %s" % (mode, ("ref%d.colvars.state" % i) if distinct else name))
+        fname = ("ref%d.colvars.state" % i) if distinct else name
+        if sess.get("writer") == "bias":
+            # colvarbias::write_state_prefix: the state of the metadynamics bias alone, to <prefix>.colvars.state
+            L.append("script cv bias m save %s" % fname[:-len(".colvars.state")])
+        else:
+            L.append("save %s %s" % (mode, fname))
     return "\n".join(L) + "\n"
 
 
-def load_scenario(prefix, config="base"):
-    L = ["natoms 2", "new", "config EOF"] + CONFIGS[config].strip("\n").split("\n") + ["EOF", "load %s" % prefix]
+def load_scenario(prefix, config="base", bias=False):
+    L = ["natoms 2", "new", "config EOF"] + CONFIGS[config].strip("\n").split("\n") + ["EOF"]
+    if bias:
+        # colvarbias::read_state_prefix takes the file name itself when <prefix>.colvars.state is not there
+        L += ["script cv bias m load %s" % prefix]
+    else:
+        L += ["load %s" % prefix]
     return "\n".join(L) + "\n"
 
 
@@ -197,7 +207,8 @@ def run_session(vsim, d, sess, plan):
             inject.append("inject=%s:signal=SIGKILL:when=%d" % (r["sys"], r["occ"]))
     killed = rc < 0 or rc >= 128
     # the SAVE lines printed so far (the scenario makes stdout unbuffered, so they survive a kill)
-    pres = ["ok" if l.strip() == "SAVE err=ok" else "err" for l in out.split("\n") if l.startswith("SAVE err=")]
+    pres = ["ok" if (l.strip() == "SAVE err=ok" or l.startswith("SCRIPT err=ok")) else "err"
+            for l in out.split("\n") if l.startswith("SAVE err=") or l.startswith("SCRIPT err=")]
     res = None if killed else pres
     for f in ("s.scn", "trace.txt"):
         p = os.path.join(d.path, f)
@@ -285,6 +296,8 @@ def model_line(start_model, sessions):
         for i, c in enumerate(chunking):
             parts.append("s:%d:%s:%d" % (version_of(sess, i), ",".join(map(str, c["chunks"])) or "-", c["tail"]))
         parts.append("p:" + (",".join(plan) or "-"))
+    if any(sess.get("writer") == "bias" for sess, c, p in sessions):
+        parts.append("w:bias")
     return " ".join(parts)
 
 
@@ -326,12 +339,15 @@ def complete_versions(files, refs_by_ver):
     return out
 
 
-def try_load_(vsim, d, fname, config="base"):
+def try_load_(vsim, d, fname, config="base", bias=False):
     scn = os.path.join(d.path, "l.scn")
-    open(scn, "w").write(load_scenario(fname, config))
+    open(scn, "w").write(load_scenario(fname, config, bias))
     rc, out, err = V.sh(["timeout", "-s", "KILL", "20", vsim, scn], cwd=d.path, timeout=60,
                         env={"ASAN_OPTIONS": "abort_on_error=1:detect_leaks=0", "UBSAN_OPTIONS": "halt_on_error=1:abort_on_error=1"})
     os.remove(scn)
+    if bias:
+        m = re.search(r"SCRIPT err=(\S+)", out)
+        return rc, (m.group(1), None) if m else None
     m = re.search(r"LOAD err=(\S+) it=(-?\d+)", out)
     return rc, (m.group(1), int(m.group(2))) if m else None
 
@@ -423,6 +439,20 @@ def run_case(run, model, vsim, d, case, quick):
                     if mtmp != "-":
                         v_, b_, t_ = map(int, mtmp.split("."))
                         mfs = mfs.replace("tmp:" + mtmp, "tmp:%d.%d.%d" % (v_, b_ + int(ex.group(1)), t_))
+        if sess.get("writer") == "bias" and "e" in plan:
+            # after a failed write the stream is closed all the same: the filebuf first tries to write what it still holds
+            # (outside the model: it only moves the byte count of the temporary file of the failed save)
+            mt, it_ = mm.group(2).split(","), itrace.split(",")
+            for j in range(len(it_)):
+                if j < len(mt) and mt[j] == "C" and it_[j].startswith("W") and j + 1 < len(it_) and it_[j + 1] == "C" and it_[:j] == mt[:j]:
+                    extra = int(it_[j][1:])
+                    itrace = ",".join(it_[:j] + it_[j + 1:])
+                    if it_[j + 2:j + 3] == [] or True:
+                        mtmp = dict(x.split(":") for x in mfs.split())["tmp"]
+                        if mtmp != "-" and obs["tmp"] != "-" and obs["tmp"][0] != int(mtmp.split(".")[1]):
+                            v_, b_, t_ = map(int, mtmp.split("."))
+                            mfs = mfs.replace("tmp:" + mtmp, "tmp:%d.%d.%d" % (v_, obs["tmp"][0], t_))
+                    break
         cur_model = dict(x.split(":") for x in mfs.split())
         same = (itrace == mm.group(2)) and match_model(obs, mfs, refs_by_ver)
         if res is None:
@@ -443,7 +473,12 @@ def run_case(run, model, vsim, d, case, quick):
     loadable = []
     for k, n in (("cur", NAME), ("old", NAME + ".old")):
         if files[k] is not None:
-            rc, ld = try_load(vsim, d, n, run, case["label"])
+            if any(s_.get("writer") == "bias" for s_, p_ in sessions):
+                rc, ld = try_load_(vsim, d, n, "base", True)
+                if ld and ld[0] == "ok":
+                    ld = ("ok", ([v for kk, v in comp if kk == k] + [None])[0])
+            else:
+                rc, ld = try_load(vsim, d, n, run, case["label"])
             if rc >= 128 or rc == 124 or rc < 0:
                 run.violation("load.crash", "loading %s left by the fault plan %s kills the process (rc=%d)" % (n, case["label"], rc),
                               {"kind": "crash", "case": case, "file": n})
@@ -623,6 +658,19 @@ def run_crash(run, model, vsim, quick):
     for k in (12, 13, 14):
         for f in ("e", "k0"):
             cases.append({"kind": "install-fault", "label": "small:install:%s@%d" % (f, k), "sessions": [(s123, ["o"] * k + [f])]})
+    # 3b. the writer of a single bias's state file (cv bias m save): death and an error return at every call
+    bsmall = {"first": 0, "pre": 3, "saves": ["text", "text", "text"], "writer": "bias"}
+    blarge = {"first": 0, "pre": 300, "saves": ["text", "text"], "writer": "bias"}
+    for label, sess in (("bias-small", bsmall), ("bias-large", blarge)):
+        refs, chunking, rel = reference(vsim, d, sess)
+        n = len(rel)
+        run.sample({"fault_free_trace_" + label: trace_str(rel), "state_sizes": [len(x) for x in refs]})
+        ks = list(range(n)) if (not quick or n <= 12) else sorted(r.sample(range(n), 12))
+        for k in ks:
+            cases.append({"kind": "bias-writer-kill", "label": "%s:kill@%d" % (label, k), "sessions": [(sess, ["o"] * k + ["k0"])]})
+            cases.append({"kind": "bias-writer-error", "label": "%s:err@%d" % (label, k), "sessions": [(sess, ["o"] * k + ["e"])]})
+    cases.append({"kind": "bias-writer-two-processes", "label": "bias:kill-in-the-write-of-save-2,restart,kill-between-the-two-renames",
+                  "sessions": [(bsmall, ["o"] * 10 + ["k0"]), ({"first": 1000, "pre": 2, "saves": ["text"], "writer": "bias"}, ["o"] * 7 + ["k0"])]})
     # 4. random two-fault plans over two processes
     for j in range(8 if quick else 100):
         p1 = ["o"] * r.randint(4, 22) + [r.choice(["k0", "e"])]
